@@ -7,6 +7,9 @@
    with the origin rectangle has a corner in 0 .. i32_max is derived: Proofs/SrcRectFacts.v).
    Statements only (proofs: Proofs/SrcCropped.v). *)
 From EG Require Import Base.Prelude Base.Casts Model.Geometry Model.Target Gen.SrcGeometry Gen.SrcCropped Proofs.SrcGeometry Proofs.SrcCropped.
+(* the generated definitions that cast to usize (`as usize`, `usize::try_from`) take the width of usize as Casts.UsizeW; the model
+   of this property works with 64-bit usize (exact integers in range): taken at that width *)
+#[local] Existing Instance Casts.usize64_w.
 
 Theorem C03_src_cropped_next_is_model : forall st,
   src_Cropped_next st_next st_nth st = (snd (cropped_next st), fst (cropped_next st)).
